@@ -1479,7 +1479,8 @@ class REParser(Parser, ABC):
             parse_value: Callable[[str], int] = parse_value,
             error_status: bool = False,
     ) -> Generator[HandHistory, None, int]:
-        ss = findall(self.HAND, s.replace('\r\n', '\n') + '\n\n\n')
+        s = s.replace('\r\n', '\n').lstrip('\ufeff')
+        ss = findall(self.HAND, s + '\n\n\n')
 
         for s in ss:
             try:
